@@ -23,6 +23,7 @@ CONSTANTS
   NameOrder <- NameOrderA
   BuildCfgs <- BuildCfgsA
   IntegrCfgs <- IntegrCfgsA
+  OdeCfgs <- OdeCfgsA
   UnitCfgs <- UnitsNone
   Times <- TimesA
   Tol <- TolA
